@@ -172,8 +172,9 @@ fn build_options(choice: &[usize], evm: usize, dir: &Path) -> (AddNodeServiceOpt
         rewards_address: RewardsAddress::from([0x11u8; 20]),
         rpc_address: None,
         rpc_port: if c("rpc_port") == 1 { Some(PortRange::Single(13001)) } else { None },
-        service_data_dir_path: dir.join("data"),
-        service_log_dir_path: dir.join("logs"),
+        // mixed-case directory names: the node must use exactly the directories the manager creates and records
+        service_data_dir_path: dir.join("Node-Data"),
+        service_log_dir_path: dir.join("Node-Logs"),
         upnp: c("upnp") == 1,
         user: None,
         user_mode: c("user_mode") == 1,
@@ -194,6 +195,8 @@ fn build_options(choice: &[usize], evm: usize, dir: &Path) -> (AddNodeServiceOpt
     if c("node_ip") == 1 {
         want("node_ip", "ip: 10.9.8.7,".into());
     }
+    want("root_dir", format!("\"{}\",", dir.join("Node-Data").join("antnode1").display()));
+    want("log_dir", format!("\"{}\",", dir.join("Node-Logs").join("antnode1").display()));
     want("first", format!("first: {},", c("first") == 1));
     want("local", format!("local: {},", c("local") == 1));
     for i in 0..c("peers") {
